@@ -312,7 +312,8 @@ func (w SocialWrappedCallbacks) update(c context.Context, a vocab.ActivityStream
 		} else if t == nil {
 			return ErrNotFound
 		}
-		m, err := t.Serialize()
+		// With its '@context': the merged value is deserialized below.
+		m, err := streams.Serialize(t)
 		if err != nil {
 			return err
 		}
